@@ -1,1 +1,66 @@
+import Proofs.Diff
 import Model.Diff.Text
+/-!
+# C13 — exclude_paths / exclude_regex_paths / include_paths act as pure filters
+
+Machine-checked here: how the model's skip tests decide (literal exclusion is exact membership of
+the level's path; an excluded child contributes nothing; reported entries are filtered by the same
+test), and the two boundary witnesses.  The theorem that the restricted result equals the filtered
+unrestricted result (positional mode, threshold 0) is stated in DESIGN §5/C13 and not proved yet:
+inside that domain the property is decided on the implementation by the harness, with the model
+compared under the same options.
+-/
+namespace Diff
+open Py
+
+/-- with only `exclude_paths` given, a level is skipped exactly when its path is one of them -/
+theorem C13_skip_exclude_only (cfg : DCfg) (hi : cfg.incl = []) (hr : cfg.excludePrefix = []) (p : String) :
+    skipPath cfg (some p) = cfg.exclude.contains p := by
+  simp only [skipPath, hi, hr, List.isEmpty_nil, Bool.not_true, Bool.false_and, Bool.false_eq_true, ↓reduceIte,
+    Option.getD_some, Option.isSome_some, Bool.and_true]
+  cases h : cfg.exclude with
+  | nil => simp
+  | cons a l => simp
+
+/-- an anchored regex `^p(\[|$)` skips exactly the levels at or below `p` -/
+theorem C13_skip_prefix (cfg : DCfg) (hi : cfg.incl = []) (he : cfg.exclude = []) (q : String) :
+    skipPath cfg (some q) = cfg.excludePrefix.any (fun pre => q == pre || q.startsWith (pre ++ "[")) := by
+  simp only [skipPath, hi, he, List.isEmpty_nil, Bool.not_true, Bool.false_and, Bool.false_eq_true, ↓reduceIte,
+    Option.getD_some]
+  cases h : cfg.excludePrefix with
+  | nil => rfl
+  | cons a l =>
+    simp only [List.isEmpty_cons, Bool.not_false, Bool.true_and]
+    split
+    · rename_i h1; rw [h1]
+    · rename_i h1; simp only [Bool.not_eq_true] at h1; rw [h1]
+
+/-- nothing reported survives at a skipped level: the final tree only holds entries whose own path
+passes the test -/
+theorem C13_reported_not_skipped (cfg : DCfg) (al : Align) (hashOf : PyVal → String) (a b : PyVal) :
+    ∀ e ∈ keepReported cfg (diffV cfg al hashOf [] a b).tree, skipSteps cfg e.2.steps = false := by
+  intro e he
+  have := (List.mem_filter.1 he).2
+  simpa using this
+
+/-- an excluded child of a list contributes nothing, whatever it contains -/
+theorem C13_excluded_child_silent (cfg : DCfg) (al : Align) (hashOf : PyVal → String) (steps : List Step) (i : Nat)
+    (x y : PyVal) (xs ys : List PyVal) (h : skipSteps cfg (steps ++ [⟨.iter, some (.int i), some (.int i)⟩]) = true) :
+    diffPairs cfg al hashOf steps i (x :: xs) (y :: ys) = diffPairs cfg al hashOf steps (i + 1) xs ys := by
+  simp only [diffPairs, h, ↓reduceIte, Result.empty_append]
+
+/-- **Negative witness (finding F10a / F10c).** `_skip_this_key` renders every key as `['key']`: for
+the int key `1` of the root dict it tests `root['1']`, so with `include_paths=['root[1]']` the key is
+skipped although its own path is the included one. -/
+theorem C13_N_include_int_key : skipKey { incl := ["root[1]"] } [] (.int 1) = true := by
+  simp [skipKey, pathStr, pathChars, Path.rootChars, isSubstr, isSubstr.go]
+  decide
+
+/-- **Negative witness (finding F10b).** At the default threshold an excluded key changes the
+"diff deeper?" decision: two added keys against an empty dict give ratio 0/2 < 0.33 (the whole dict is
+reported as changed), while with one of them excluded the union has one element and the shortcut
+does not fire — content under the excluded path decides what is reported elsewhere. -/
+theorem C13_N_threshold_leak : belowThreshold {} 0 2 = true ∧ belowThreshold {} 0 1 = false := by
+  decide
+
+end Diff
